@@ -764,6 +764,44 @@ def faults_ext(model, want=lambda *a: True):
                 yield (rule, kind, ns.name + ' ' + text, _specs(mm.add_def(model, ns.name, 0, RawDef(text), sort=False)))
             for a in anns[:1]:
                 yield ('symbol-unique', 'annotation-def', ns.name + '.' + a.name, _specs(mm.add_def(model, ns.name, 0, a, sort=False)))
+            # custom annotation types visible here (own and imported): wrong argument lists, one per rule of lang_ref 'Custom annotations'
+            visible_types = [(None, d) for _, _, _, d in mm.all_defs(model, ns.name) if isinstance(d, AnnType)]
+            for imp in sorted(mm.imports_of(model, ns.name)):
+                visible_types += [(imp, d) for _, _, _, d in mm.all_defs(model, imp) if isinstance(d, AnnType)]
+            for ans, at in visible_types:
+                q = (ans + '.' if ans else '') + at.name
+                good = {'Int32': '3', 'String': '"s"', 'Boolean': 'true', 'Float64': '1.5'}
+                wrong = {'Int32': '"s"', 'String': '3', 'Boolean': '"s"', 'Float64': '"s"'}
+
+                def kind_of(p):
+                    t = p.type.inner if isinstance(p.type, N) else p.type
+                    return t.kind
+                allpos = ', '.join(good[kind_of(p)] for p in at.params)
+                site = ns.name + ' ' + q
+                yield ('annotation-arity', 'custom-annotation/too-many', site,
+                       _specs(mm.add_def(model, ns.name, 0, RawDef('annotation Zx = %s(%s)' % (q, ', '.join([allpos, '1']) if allpos else '1')), sort=False)))
+                yield ('annotation-unknown-parameter', 'custom-annotation', site,
+                       _specs(mm.add_def(model, ns.name, 0, RawDef('annotation Zx = %s(zzunknown=1)' % q), sort=False)))
+                if at.params:
+                    p0 = at.params[0]
+                    yield ('annotation-argument-fits-type', 'custom-annotation/positional', site,
+                           _specs(mm.add_def(model, ns.name, 0, RawDef('annotation Zx = %s(%s)' % (q, ', '.join([wrong[kind_of(p0)]] + [good[kind_of(p)] for p in at.params[1:]]))), sort=False)))
+                    kw = ', '.join('%s=%s' % (p.name, wrong[kind_of(p)] if p is p0 else good[kind_of(p)]) for p in at.params)
+                    yield ('annotation-argument-fits-type', 'custom-annotation/keyword', site,
+                           _specs(mm.add_def(model, ns.name, 0, RawDef('annotation Zx = %s(%s)' % (q, kw)), sort=False)))
+                    req = [p for p in at.params if p.default == NODEF and not isinstance(p.type, N)]
+                    if req:
+                        yield ('annotation-required-parameter', 'custom-annotation', site,
+                               _specs(mm.add_def(model, ns.name, 0, RawDef('annotation Zx = %s()' % q), sort=False)))
+                    if len(at.params) >= 2:
+                        mixed = '%s, %s' % (good[kind_of(at.params[0])], '%s=%s' % (at.params[1].name, good[kind_of(at.params[1])]))
+                        yield ('annotation-args-not-mixed', 'custom-annotation', site,
+                               _specs(mm.add_def(model, ns.name, 0, RawDef('annotation Zx = %s(%s)' % (q, mixed)), sort=False)))
+            for _, _, _, d in mm.all_defs(model, ns.name):
+                if isinstance(d, (Struct, Union)) and visible_types:
+                    yield ('annotation-type-is-annotation-type', 'custom-annotation', ns.name + ' ' + d.name,
+                           _specs(mm.add_def(model, ns.name, 0, RawDef('annotation Zx = %s()' % d.name), sort=False)))
+                    break
         for ns_name, fi, di, d in mm.all_defs(model):
             if ns_name == 'stone_cfg':
                 continue
